@@ -6,7 +6,8 @@
 (*            HashMapContext with builtins enabled / disabled              *)
 (*   user function named `name`: absent, or one of four behaviours         *)
 (*   variable named `name`: absent / bound (separate namespaces)           *)
-(*   call form  n(2)  n 2  n "s"  n true  n()  n(2, 3)  w n 2   (w is a     *)
+(*   call form  n(2)  n 2  n "s"  n true  n()  n(2, 3)  n(true, 2, 3)       *)
+(*              w n 2   (w is a                                             *)
 (*              recording wrapper)                                         *)
 (* The expected outcome is Eval's: the user function (called once, with    *)
 (* exactly this argument), else the builtin if enabled, else               *)
@@ -24,7 +25,7 @@ Cfg(kind, nb, uf, hasVar) == [kind |-> kind, nb |-> nb, uf |-> uf, var |-> hasVa
 NoFn == Beh("none", VEmpty)
 Configs == {Cfg("Empty", TRUE, NoFn, FALSE), Cfg("EmptyBuiltin", FALSE, NoFn, FALSE)}
            \cup {Cfg("HashMap", nb, uf, hv) : nb \in BOOLEAN, uf \in Behaviours \cup {NoFn}, hv \in BOOLEAN}
-Forms == {"paren", "juxta", "juxtastr", "juxtabool", "unit", "pair", "nested"}
+Forms == {"paren", "juxta", "juxtastr", "juxtabool", "unit", "pair", "triple", "nested"}
 
 Init == lvl = 1 /\ name \in AllNames /\ cfg = Cfg("Empty", TRUE, NoFn, FALSE)
 Next == lvl = 1 /\ lvl' = 2 /\ name' = name /\ cfg' \in Configs
@@ -42,8 +43,10 @@ ToksOf(form, n) ==
     [] form = "juxtabool" -> <<TId(n), TLit(VBool(TRUE), TrueText)>>
     [] form = "unit" -> <<TId(n), TOp("("), TOp(")")>>
     [] form = "pair" -> <<TId(n), TOp("("), L2, TOp(","), L3, TOp(")")>>
+    [] form = "triple" -> <<TId(n), TOp("("), TLit(VBool(TRUE), TrueText), TOp(","), L2, TOp(","), L3, TOp(")")>>
     [] form = "nested" -> <<TId(NW), TId(n), L2>>
-ArgOf(form) == CASE form = "unit" -> VEmpty [] form = "pair" -> VTuple(<<VNat(2), VNat(3)>>) [] form = "juxtastr" -> VStr(<<115>>)
+ArgOf(form) == CASE form = "unit" -> VEmpty [] form = "pair" -> VTuple(<<VNat(2), VNat(3)>>)
+                [] form = "triple" -> VTuple(<<VBool(TRUE), VNat(2), VNat(3)>>) [] form = "juxtastr" -> VStr(<<115>>)
                 [] form = "juxtabool" -> VBool(TRUE) [] OTHER -> VNat(2)
 
 Run(form, c) == Core("imm", BuildToks(ToksOf(form, name)).tree, St(CtxOf(c, name), <<>>))
